@@ -277,6 +277,11 @@ class Exec:
             fe = e[1]; args = [s.eval(a, env) for a in e[2]]
             if fe[0] == 'id' and fe[1] not in env:
                 n = fe[1]
+                if n == 'range' and len(args) == 1 and isinstance(args[0], Range):
+                    # a range made from a RANGE VIEW is the prelude's own `def range(r) : call_exists(...)` overload, not the C++ constructor: its text decides
+                    # whether the algorithm works on a copy of the caller's view or on the caller's view itself
+                    g = s.lookup_fn('range', args)
+                    if g is not None: return s.call(g, args)
                 if n in BUILTINS: return s.call(BUILTINS[n], args)
                 f = s.lookup_fn(n, args)
                 if f is not None: return s.call(f, args)
@@ -371,7 +376,8 @@ BUILTINS = {
     'size': Builtin('size', lambda s, c: len(c.items)), 'push_back': Builtin('push_back', _push_back), 'push_back_ref': Builtin('push_back_ref', _push_back),
     'new': Builtin('new', lambda s, c: Vec([], c.kind if isinstance(c, Vec) else c.vec.kind)), 'clone': Builtin('clone', lambda s, c: s.copy(c)),
     'back_inserter': Builtin('back_inserter', lambda s, c: ('bound', BUILTINS['push_back'], [c, Placeholder()])), 'bind': Builtin('bind', _bind),
-    'Vector': Builtin('Vector', lambda s: Vec([])), 'eq': Builtin('eq', lambda s, a, b: s.binop('==', a, b)), 'call_exists': Builtin('call_exists', lambda s, *a: True),
+    'Vector': Builtin('Vector', lambda s: Vec([])), 'eq': Builtin('eq', lambda s, a, b: s.binop('==', a, b)), 'call_exists': Builtin('call_exists', lambda s, f, *a: (isinstance(a[0], Vec) if (isinstance(f, Builtin) and f.name == 'range_internal') else True)),      # range_internal (the C++ range constructor) exists for containers only
+    'range_internal': Builtin('range_internal', lambda s, c: s.b_range(c)),
     'size_t': Builtin('size_t', lambda s, x: x), 'is_type': Builtin('is_type', lambda s, x, t: isinstance(x, Vec) and x.kind == 'string'),
 }
 
@@ -384,7 +390,7 @@ def explore(funcs, run, limits):
         ex = Exec(funcs, dec, limits)
         try:
             res = run(ex)
-            paths.append(dict(pc=list(ex.pc), res=res, log=list(ex.log), abort=None, args_after=[(a.items, o) for a, o in getattr(ex, '_args', [])]))
+            paths.append(dict(pc=list(ex.pc), res=res, log=list(ex.log), abort=None, args_after=[(a.items, o) for a, o in getattr(ex, '_args', [])], ranges_after=[(a.lo, a.hi, lo, hi) for a, lo, hi in getattr(ex, '_rargs', [])]))
         except Fork as f:
             sol = z3.Solver(); sol.add(*ex.pc)
             for d in (True, False):
@@ -443,6 +449,12 @@ def obligations(K):
             lambda: [(z3.And([p1.f(e) for e in c[:k]] + ([z3.Not(p1.f(c[k]))] if k < L else [])), c[:k]) for k in range(L + 1)])
         add('drop_while', 'what remains after the longest prefix satisfying the predicate', lambda: [Vec(c), p1],
             lambda: [(z3.And([p1.f(e) for e in c[:k]] + ([z3.Not(p1.f(c[k]))] if k < L else [])), c[k:]) for k in range(L + 1)])
+        RV = lambda items=c: Range(Vec(items), 0, len(items))          # range(v) kept in a variable by the caller
+        add('for_each', 'on a range view: once per element in order, view unchanged', lambda: [RV(), f1], lambda: [(z3.BoolVal(True), None)], lambda: [(z3.BoolVal(True), [('f', (e,)) for e in c])])
+        add('sum', 'on a range view: 0.0 + c[0] + ..., view unchanged', lambda: [RV()], lambda: [(z3.BoolVal(True), Dbl(sum([z3.ToReal(e) for e in c], z3.RealVal(0))))])
+        add('contains', 'on a range view: true iff some element equals the item, view unchanged', lambda: [RV(), x], lambda: [(z3.BoolVal(True), z3.Or([e == x for e in c]) if c else z3.BoolVal(False))])
+        add('foldl', 'on a range view: f(c[n-1], ... f(c[0], init)), view unchanged', lambda: [RV(), g2, x], lambda: [(z3.BoolVal(True), __import__('functools').reduce(lambda acc, e: g2.f(e, acc), c, x))])
+        add('any_of', 'on a range view: true iff the predicate holds for some element, view unchanged', lambda: [RV(), p1], lambda: [(z3.BoolVal(True), z3.Or([p1.f(e) for e in c]) if c else z3.BoolVal(False))])
         if L >= 2: add('reduce', 'f(... f(f(c[0], c[1]), c[2]) ...)', lambda: [Vec(c), g2], lambda: [(z3.BoolVal(True), __import__('functools').reduce(lambda acc, e: g2.f(acc, e), c[1:], c[0]))])
         for L2 in range(K + 1):
             d2 = ints('d', L2)
@@ -491,7 +503,8 @@ def check(funcs, K, only=None):
         inp = Vec(ob['input_vec']); orig = list(inp.items)
         def run(ex, ob=ob):
             args = ob['args']()
-            ex._args = [(a, list(a.items)) for a in args if isinstance(a, Vec)]
+            ex._args = [(a, list(a.items)) for a in args if isinstance(a, Vec)] + [(a.vec, list(a.vec.items)) for a in args if isinstance(a, Range)]
+            ex._rargs = [(a, a.lo, a.hi) for a in args if isinstance(a, Range)]
             f = ex.lookup_fn(ob['fn'], args)
             if f is None: raise PathAbort('no overload accepts the arguments')
             return ex.call(f, args)
@@ -546,6 +559,13 @@ def check(funcs, K, only=None):
             for a, o in p.get('args_after', []):
                 if len(a) != len(o) or any(x is not y for x, y in zip(a, o)):
                     verdict = 'CEX'; cex = dict(model={}, got='an input container was modified: ' + str(value_repr(a)), expected=str(value_repr(o)))
+            # a range VIEW handed in by the caller (range(v), a retro view, the result of a search) still denotes the same elements afterwards
+            for lo2, hi2, lo, hi in p.get('ranges_after', []):
+                if (lo2, hi2) != (lo, hi) and verdict != 'CEX':
+                    sol.push(); queries += 1
+                    if sol.check() != z3.unsat:
+                        verdict = 'CEX'; cex = dict(model={}, got='the caller\'s range view was advanced: now elements [%d, %d)' % (lo2, hi2), expected='unchanged: elements [%d, %d)' % (lo, hi), range_view=True)
+                    sol.pop()
         results.append(dict(function=ob['fn'], case=ob['desc'], verdict=verdict, why=why, cex=cex, queries=queries, paths=len(paths), wall=round(time.time() - t0, 3)))
     return results
 
